@@ -6,7 +6,8 @@ from lib import Case, fmt_list
 
 PROP = "C18"
 DRIVER = "drv-c18"
-PROOF_MODULES = ["TetlProofs.C18.Props", "TetlProofs.C18.PropsCtype", "TetlProofs.C18.PropsDiv", "TetlProofs.C18.PropsGen", "TetlProofs.C18.PropsGenW"]
+PROOF_MODULES = ["TetlProofs.C18.Props", "TetlProofs.C18.PropsFootprint", "TetlProofs.C18.PropsCtype", "TetlProofs.C18.PropsDiv",
+                 "TetlProofs.C18.PropsGen", "TetlProofs.C18.PropsGenW"]
 HARNESS = "harness/c18.cpp"
 SOURCES = ["include/etl/_strings/cstr.hpp", "include/etl/_cstring", "include/etl/_cwchar", "include/etl/_cctype",
            "include/etl/_cwctype", "include/etl/_cstdlib/div.hpp", "include/etl/_cstdlib/labs.hpp",
@@ -17,17 +18,32 @@ RULE = ("cctype: all 14 functions on every argument in [-1,255] (the complete do
         "mem functions over {a, 0x80-unit, 0} -- in exact-size heap allocations: all pairs for the two-string functions, "
         "every count in [0,len+2], terminated and unterminated (exactly count units) sources, pointer offsets 0 and 1, "
         "destinations of exactly the extent C defines framed by guard units (non-zero fill after the terminator), every "
-        "(dest,src,n) placement inside buffers up to 7 (8) units for memmove; plus seeded random strings up to length 48. "
-        "Only inputs satisfying the C preconditions (the decidable predicates Terminated / ReadableN / room of the Lean "
-        "theorems) are generated. A case is non-trivial when its first string/array argument is non-empty and its count "
-        "(if any) is non-zero, or it is a ctype/div point; distinct = distinct case text.")
+        "(dest,src,n) placement inside buffers up to 7 (8) units for memmove; memmove across two allocations (allocation "
+        "order alternated), memcpy between every pair of disjoint extents of one allocation, strncmp on arrays readable "
+        "only jointly (the call stops before the end of the shorter one); plus seeded random strings up to length 48. "
+        "On every strchr/strrchr/memchr/strpbrk/strstr line (and the wcs/wmem counterparts) BOTH overloads run -- pointer "
+        "to const and pointer to non-const (memchr(void*) has its own body) -- and must return the same offset, the "
+        "non-const one with the ISO C++ return type for (C*, C const*) arguments (`!mut=` / `!sig` in the output "
+        "otherwise). strrchr/wcsrchr are also called with a null pointer (tetl returns null; glibc is not called, the "
+        "spec column is masked). Apart from that only inputs satisfying the C preconditions (the decidable predicates "
+        "Terminated / ReadableN / cmpReadableN / room of the Lean theorems) are generated. A case is non-trivial when "
+        "its first string/array argument is non-empty and its count (if any) is non-zero, or it is a ctype/div point; "
+        "distinct = distinct case text.")
 ASSUMPTIONS = ["glibc 2.36 in the \"C\" locale (setlocale(LC_ALL, \"C\")) is the reference for spec validation (R2)",
                "allocations are modelled as lists of unsigned code units; plain char is 8-bit, wchar_t a signed 32-bit int "
-               "(x86-64 Linux); source and destination of the copy/concatenate functions are distinct allocations",
-               "the harness is compiled with g++: the `#if defined(__clang__)` builtin branches of strlen/strcmp/strncmp/"
-               "strchr/memchr/memcmp/memcpy/memmove/wmemcpy/wmemmove are not exercised"]
+               "(x86-64 Linux); source and destination of strcpy/strncpy/strcat/strncat are distinct allocations (memcpy: "
+               "distinct allocations or disjoint extents of one; memmove: one allocation with any overlap, or two "
+               "allocations, where the outcome of `ps < pd` on unrelated pointers is left open and both directions are proved)",
+               "the harness is compiled with g++: the builtin branches of strlen/strcmp/strncmp/strchr/memchr/memcmp/memcpy/"
+               "memmove/wmemcpy/wmemmove are selected at compile time by `#if defined(__clang__)` (not at run time) and are "
+               "neither compiled nor modelled here"]
 TRUSTED = ["hand model Tetl/C18/Model.lean tied to the source by the correspondence run (R1) on every run",
-           "spec Tetl/C18/Spec.lean validated against glibc (R2) on every run"]
+           "spec Tetl/C18/Spec.lean validated against glibc (R2) on every run",
+           "the reduction of the int argument to the character type is the same definition in model and spec "
+           "(CT.cast = Spec.toUnit = the residue modulo 2^bits, C 6.3.1.3): the theorems cannot detect an error in it; "
+           "only R2 against glibc does (ch in {-1, 256, 256+97, hi-256}).  The order of code units is defined "
+           "independently (spec: identity for char, balanced remainder Int.bmod for wchar_t; model: compare_units' casts) "
+           "and related by Lemmas.key_eq"]
 SEARCH_CAP = 900000
 
 CTYPE = ["isalnum", "isalpha", "isblank", "iscntrl", "isdigit", "isgraph", "islower", "isprint", "ispunct", "isspace",
@@ -35,19 +51,27 @@ CTYPE = ["isalnum", "isalpha", "isblank", "iscntrl", "isdigit", "isgraph", "islo
 WCTYPE = ["iswalnum", "iswalpha", "iswblank", "iswcntrl", "iswdigit", "iswgraph", "iswlower", "iswprint", "iswpunct",
           "iswspace", "iswupper", "iswxdigit", "towlower", "towupper"]
 
+_P = "Tetl.C18.Props."
 THEOREMS = {
-    "ctype": ["Tetl.C18.Props.%s_eq" % f for f in CTYPE], "wctype": ["Tetl.C18.Props.%s_eq" % f for f in WCTYPE],
-    "strlen": ["Tetl.C18.Props.strlen_eq"], "strcpy": ["Tetl.C18.Props.strcpy_eq"],
-    "strncpy": ["Tetl.C18.Props.strncpy_eq"], "strcat": ["Tetl.C18.Props.strcat_eq"],
-    "strncat": ["Tetl.C18.Props.strncat_eq"], "strcmp": ["Tetl.C18.Props.strcmp_eq"],
-    "strncmp": ["Tetl.C18.Props.strncmp_eq"], "memcmp": ["Tetl.C18.Props.memcmp_eq"],
-    "strchr": ["Tetl.C18.Props.strchr_eq"], "memchr": ["Tetl.C18.Props.memchr_eq"],
-    "memcpy": ["Tetl.C18.Props.memcpy_eq"], "memset": ["Tetl.C18.Props.memset_eq"],
-    "memmove": ["Tetl.C18.Props.memmove_eq"], "strrchr": ["Tetl.C18.Props.strrchr_eq"],
-    "strspn": ["Tetl.C18.Props.strspn_eq"], "strcspn": ["Tetl.C18.Props.strcspn_eq"],
-    "strpbrk": ["Tetl.C18.Props.strpbrk_eq"], "strstr": ["Tetl.C18.Props.strstr_eq"],
-    "div": ["Tetl.C18.Props.div_eq", "Tetl.C18.Props.div_law"], "abs": ["Tetl.C18.Props.abs_eq"],
+    # a <cctype>/<cwctype> line is named by its function: the obligations that break when the header changes are the
+    # ones over the GENERATED model (PropsGen / PropsGenW); the hand-model theorem is listed second
+    "ctype": ["Tetl.C18.PropsGen.gen_%s_eq" % f for f in CTYPE] + [_P + "%s_eq" % f for f in CTYPE],
+    "wctype": ["Tetl.C18.PropsGenW.gen_%s_eq" % f for f in WCTYPE] + [_P + "%s_eq" % f for f in WCTYPE],
+    "strlen": [_P + "strlen_eq", _P + "strlen_footprint", _P + "strlen_footprint_exact"],
+    "strncmp": [_P + "strncmp_eq", _P + "strncmp_joint_eq", _P + "strncmp_footprint"],
+    "strcspn": [_P + "strcspn_eq", _P + "strcspn_footprint"],
+    "strrchr": [_P + "strrchr_eq", _P + "strrchrP_eq", _P + "strrchr_footprint"],
+    "strrchr0": [_P + "strrchrP_eq"],
+    "memmove2": [_P + "memmove2_eq"], "memcpy1": [_P + "memcpy1_eq"],
+    "div": [_P + "div_eq", _P + "div_law"], "abs": [_P + "abs_eq"],
 }
+for _f in ("strcpy", "strncpy", "strcat", "strncat", "strcmp", "memcmp", "strchr", "memchr", "memcpy", "memset", "memmove",
+           "strspn", "strpbrk", "strstr"):
+    THEOREMS[_f] = [_P + _f + "_eq", _P + _f + "_footprint"]
+for _f in CTYPE:
+    THEOREMS[_f] = ["Tetl.C18.PropsGen.gen_%s_eq" % _f, "Tetl.C18.PropsGen.gen_no_ub", _P + "%s_eq" % _f]
+for _f in WCTYPE:
+    THEOREMS[_f] = ["Tetl.C18.PropsGenW.gen_%s_eq" % _f, _P + "%s_eq" % _f]
 
 G = 238          # guard unit (0xEE): non-zero, not in any alphabet
 
@@ -66,6 +90,16 @@ def terminated(b, p):
 
 def readable_n(b, p, n):
     return p + n <= len(b) or terminated(b, p)
+
+
+def cmp_readable_n(a, b, n):
+    """Spec.cmpReadableN: every pair strncmp looks at before it stops is inside both arrays"""
+    for k in range(n):
+        if k >= len(a) or k >= len(b):
+            return False
+        if a[k] != b[k] or a[k] == 0:
+            return True
+    return True
 
 
 def cstr(b, p):
@@ -94,7 +128,7 @@ def generate(tier, seed):
     # ---------------------------------------------------------------- cctype / cwctype
     for f in CTYPE:
         for c in range(-1, 256):
-            add("ctype f=%s c=%d" % (f, c), "ctype/" + f)
+            add("%s c=%d" % (f, c), "ctype/" + f)
     wpts = set(range(0, 0x300))
     for mid in (0x8000, 0xFFFF, 0x10000, 0x10FFFF, 0x110000, 2 ** 31, 2 ** 32 - 1):
         wpts.update(x for x in range(mid - 40, mid + 41) if 0 <= x < 2 ** 32)
@@ -107,7 +141,7 @@ def generate(tier, seed):
         wpts.update(range(0x300, 0x3000))
     for f in WCTYPE:
         for c in sorted(wpts):
-            add("wctype f=%s c=%d" % (f, c), "wctype/" + f)
+            add("%s c=%d" % (f, c), "wctype/" + f)
 
     # ---------------------------------------------------------------- strings
     def emit_strings(ct, A, M, smax, mmax):
@@ -134,6 +168,9 @@ def generate(tier, seed):
                     for ch in chs:
                         add("strchr s=%s off=%d ch=%d%s" % (fmt_list(buf), len(pre), ch, sfx), T("strchr"))
                         add("strrchr s=%s off=%d ch=%d%s" % (fmt_list(buf), len(pre), ch, sfx), T("strrchr"))
+        # strrchr/wcsrchr with a null pointer (tetl returns null; undefined in ISO C, so glibc is not called)
+        for ch in chs:
+            add("strrchr0 ch=%d%s" % (ch, sfx), T("strrchr0"))
         # memchr: arrays with zeros; counts beyond the array only when the match is found inside it
         for a in ARR:
             for off in (0, 1):
@@ -156,6 +193,13 @@ def generate(tier, seed):
                         if n <= len(a) and n <= len(b) and n > 0 and (len(a) > n or len(b) > n):
                             add("strncmp a=%s aoff=0 b=%s boff=0 n=%d%s"
                                 % (fmt_list(a[:n]), fmt_list(b[:n]), n, sfx), T("strncmp/unterminated"))
+        # strncmp on arrays that are readable only jointly: the call stops at a difference / a pair of zeros
+        # before it would leave the shorter array (Spec.cmpReadableN, weaker than ReadableN of each array)
+        for a in ARR:
+            for b in ARR:
+                for n in range(1, max(len(a), len(b)) + 3):
+                    if cmp_readable_n(a, b, n) and not (readable_n(a, 0, n) and readable_n(b, 0, n)):
+                        add("strncmp a=%s aoff=0 b=%s boff=0 n=%d%s" % (fmt_list(a), fmt_list(b), n, sfx), T("strncmp/joint"))
         for a in S3:
             for b in S3:
                 add("strcmp a=%s aoff=1 b=%s boff=1%s" % (fmt_list([A[0]] + a + [0, A[1]]), fmt_list([A[1]] + b + [0]), sfx),
@@ -216,6 +260,25 @@ def generate(tier, seed):
                             dst = [G] * doff + [G + 1] * n + [G] * tail
                             add("memcpy dst=%s doff=%d src=%s soff=%d n=%d%s"
                                 % (fmt_list(dst), doff, fmt_list(a), soff, n, sfx), T("memcpy"))
+        # memmove across two allocations (`ps < pd` on unrelated pointers; allocation order alternated)
+        for a in ARR:
+            for soff in (0, 1):
+                for n in range(0, len(a) - soff + 1):
+                    for doff, tail in ((0, 0), (1, 1)):
+                        for first in ("dst", "src"):
+                            dst = [G] * doff + [G + 1] * n + [G] * tail
+                            add("memmove2 dst=%s doff=%d src=%s soff=%d n=%d first=%s%s"
+                                % (fmt_list(dst), doff, fmt_list(a), soff, n, first, sfx), T("memmove2"))
+        # memcpy between two disjoint extents of one allocation, every placement, both orders
+        for L in range(0, (9 if thorough else 8)):
+            buf = list(range(1, L + 1))
+            if L >= 3:
+                buf[2] = 0
+            for n in range(0, L + 1):
+                for d in range(0, L - n + 1):
+                    for s_ in range(0, L - n + 1):
+                        if s_ + n <= d or d + n <= s_:
+                            add("memcpy1 buf=%s doff=%d soff=%d n=%d%s" % (fmt_list(buf), d, s_, n, sfx), T("memcpy1"))
         for n in range(0, 6):
             for doff in (0, 1, 2):
                 for tail in (0, 1):
@@ -253,7 +316,7 @@ def generate(tier, seed):
     # ---------------------------------------------------------------- seeded random longer strings
     nrand = 150000 if thorough else 25000
     OPS = ["strlen", "strchr", "strrchr", "memchr", "strcmp", "strncmp", "memcmp", "strspn", "strcspn", "strpbrk",
-           "strstr", "strcpy", "strncpy", "strcat", "strncat", "memcpy", "memset", "memmove"]
+           "strstr", "strcpy", "strncpy", "strcat", "strncat", "memcpy", "memset", "memmove", "memmove2", "memcpy1"]
     for _ in range(nrand):
         wide = rnd.random() < 0.3
         sfx = " ct=wchar" if wide else ""
@@ -365,6 +428,22 @@ def generate(tier, seed):
             doff = rnd.choice([0, 1, 2])
             dst = [G] * doff + [G + 1] * n + [G] * rnd.choice([0, 1])
             add("memcpy dst=%s doff=%d src=%s soff=%d n=%d%s" % (fmt_list(dst), doff, fmt_list(a), o, n, sfx), tag)
+        elif op == "memmove2":
+            a = [rnd.choice(alpha + [0]) for _ in range(rnd.randint(0, 40))]
+            o = min(off, len(a))
+            n = rnd.randint(0, len(a) - o)
+            doff = rnd.choice([0, 1, 2])
+            dst = [G] * doff + [G + 1] * n + [G] * rnd.choice([0, 1])
+            add("memmove2 dst=%s doff=%d src=%s soff=%d n=%d first=%s%s"
+                % (fmt_list(dst), doff, fmt_list(a), o, n, rnd.choice(["dst", "src"]), sfx), tag)
+        elif op == "memcpy1":
+            L = rnd.randint(0, 40)
+            buf = [rnd.choice(alpha + [0]) for _ in range(L)]
+            n = rnd.randint(0, L // 2)
+            lo = rnd.randint(0, L - 2 * n)
+            hi = rnd.randint(lo + n, L - n)
+            d, s_ = rnd.choice([(lo, hi), (hi, lo)])
+            add("memcpy1 buf=%s doff=%d soff=%d n=%d%s" % (fmt_list(buf), d, s_, n, sfx), tag)
         elif op == "memset":
             n = rnd.randint(0, 40)
             doff = rnd.choice([0, 1, 2])
@@ -390,7 +469,7 @@ def _first_list(line):
 def nontrivial(case, rows):
     ln = case.lines[0]
     op = ln.split(" ")[0]
-    if op in ("ctype", "wctype", "div", "abs"):
+    if op in ("ctype", "wctype", "div", "abs", "strrchr0") or op in CTYPE or op in WCTYPE:
         return True
     if " n=0" in ln:
         return False
@@ -414,20 +493,30 @@ TECHNIQUE = ("Lean 4 proof: hand model (checked reads and writes, one definition
 LEVEL_TEXT = ("Each modelled function of <cstring>/<cwchar> is proved in Lean 4, for every allocation, pointer offset and count "
               "satisfying the C preconditions (no size bound), to return without any out-of-allocation read or write exactly "
               "the offset / sign / length and the destination contents ISO C prescribes, leaving every unit outside the "
-              "destination extent unchanged; the 14 <cctype> functions are proved equal to the \"C\"-locale table on the "
-              "complete domain [-1,255] and the 14 <cwctype> functions for every wint_t; div/labs/llabs for every "
-              "representable operand. The model is tied to the current source on every run by executing model and "
+              "destination extent unchanged; and (footprint) to succeed with that same result when the source is cut down to "
+              "exactly its string with terminator / its count and the destination to exactly the extent C defines, with nothing "
+              "before the pointers. The 14 <cctype> functions are proved equal to the \"C\"-locale table on the "
+              "complete domain [-1,255] and the 14 <cwctype> functions for every wint_t; div/ldiv/lldiv/imaxdiv and labs/llabs "
+              "wherever C defines the result (non-zero divisor and representable quotient; argument other than the minimum). "
+              "The model is tied to the current source on every run by executing model and "
               "implementation on the same inputs (exhaustive small box, exact-size heap buffers with guard units under "
-              "ASan/UBSan, random longer strings); the spec is validated against glibc on the same inputs.")
+              "ASan/UBSan, random longer strings, both overloads of the search functions); the spec is validated against glibc "
+              "on the same inputs.")
 LEVEL_NOTE = ("Trusted: Lean kernel + propext/Classical.choice/Quot.sound; the hand model's fidelity outside the explored inputs; "
-              "g++-12/ASan/UBSan; glibc 2.36 as oracle for spec validation. The clang-only __builtin_* branches are not "
-              "exercised (harness built with g++). Functions without a theorem yet are listed in evidence "
-              "coverage.correspondence_only and are covered by the differential run only.")
+              "g++-12/ASan/UBSan; glibc 2.36 as oracle for spec validation; the int -> character reduction, which model and "
+              "spec share. The `#if defined(__clang__)` __builtin_* branches are not compiled (harness built "
+              "with g++). The footprint theorems speak about the model (all its accesses are checked and a failed access "
+              "cannot be recovered from); for the implementation the same is observed by ASan on the exact-size buffers. "
+              "The two overloads of a search function instantiate one template with CharT / CharT const: they share one "
+              "model and are compared with each other on every line. Every modelled function has a theorem "
+              "(coverage.correspondence_only is empty).")
 # functions modelled and compared on every run but without a Lean theorem: none (every modelled function has one).
 CORRESPONDENCE_ONLY = []
-# observed by the differential run only, outside every model
-UNPROVED_OBSERVED = ["strrchr/wcsrchr: the `str == nullptr` early return (a pointer is an index into an allocation in the model)",
-                     "the null-pointer TETL_PRECONDITIONs of strcpy/strncpy/memmove/strchr (contract checks are off; see C05)"]
+# neither modelled nor executed by this check
+UNPROVED_OBSERVED = ["NOT modelled and NOT executed here: the null-pointer TETL_PRECONDITIONs of strcpy/strncpy/memmove/strchr "
+                     "(contract checks are off in this build; the C05 check executes them in both contract-checking builds, "
+                     "`null fn=...` lines of harness/c05.cpp)",
+                     "NOT compiled here: the `#if defined(__clang__)` builtin branches (see assumptions)"]
 
 
 # ---- tie T for <cctype>: the 14 functions are regenerated from the clang AST on every run (gen/translate.py);
